@@ -321,7 +321,7 @@ class World:
                 stubs[c.func.id] = Stub("totals", lambda *a, **k: None)
         self.interp.stubs = stubs
         env_params = {"plan": self.plan, "registry": registry, "output_node": output_node, "max_workers": None,
-                      "retry": Stub("retry", lambda f: f), "fresh_time": None, "inplace": True,
+                      "retry": Stub("retry", lambda f: f), "fresh_time": getattr(self, "fresh_time", None), "inplace": True,
                       "progress_observer": Obj(None, {k: Stub(k, lambda *a, **kw: None) for k in ("increment_total",)})}
         args, kwargs = [], {}
         for p in ap.params:
@@ -411,6 +411,19 @@ def generic_single(m, rr, stale, src):
     return w, rec, N
 
 
+def terminal_single(m, rr, stale, src, fresh):
+    """A registered output that nothing in the plan consumes, with and without a forced refresh (fresh_time given)."""
+    w = World(m, rr)
+    N = w.call("N", scope=("s",))
+    P1 = w.call("P1")
+    w.edge(P1, N, "Pos", 0)
+    w.register(N, src)
+    if fresh:
+        w.fresh_time = Obj(None, {}, name="fresh_time")
+    rec = w.apply({N} if stale else set(), N)
+    return w, rec, N
+
+
 def expected_single(stale, src):
     e = {("P1", "N", "Pos(0)"), ("P2", "N", "Dep"), ("L[N]", "R[N]", "Pos(0)"),
          ("R[N]", "Spos", "Pos(0)"), ("R[N]", "Skw", "Kw(x,0)"), ("R[N]", "Spar", "Pos(0)")}
@@ -448,6 +461,16 @@ def rule_edge_effect_table(ctx, rid, rr, rid_fresh=None, rid_frames=None):
             ctx.ob(rid, f"{rr.apply.short}/output-redirected[{case}]", ok_out, loc(rr.apply),
                    "a registered output is redirected to its read node before pruning and in the returned pair" if ok_out else
                    "the output node is not redirected to the read node: the run returns the in-memory value (or prunes the read)", case)
+            # the same for an output without consumers, with and without fresh_time (round 9: C09-U)
+            for fresh in (False, True):
+                tw, trec, _tn = terminal_single(m, rr, stale, src, fresh)
+                trn = tw.find("R[N]")
+                ok_t = len(trn) == 1 and trec["ret_output"] is trn[0] and trec.get("prune_output") is trn[0]
+                tcase = f"{case},terminal,fresh_time={'given' if fresh else 'None'}"
+                ctx.ob(rid, f"{rr.apply.short}/output-redirected[{tcase}]", ok_t, loc(rr.apply),
+                       "a registered output without consumers is redirected to its read node before pruning and in the returned pair" if ok_t else
+                       "a registered output without consumers is not redirected to the read node: the run returns the in-memory value, "
+                       f"not what the store reads back (pruning keeps {tw.role(trec.get('prune_output'))}, the caller gets {tw.role(trec.get('ret_output'))})", tcase)
             req = rec.get("required", set())
             ok_req = (req == set(wn)) if stale else (req == set())
             ctx.ob(target, f"{rr.apply.short}/required-set[{case}]", ok_req, loc(rr.apply),
